@@ -254,6 +254,12 @@ def handle (j : Json) : Except String Verdict := do
     if serCls != "err" then
       return { agree := false, spec := [("C20", "pass"), c16 serCls], tags := tags, sig := s!"C20/ser/{helper}/impl={serCls}/expect=err",
                why := "Serialize succeeded although try_from fails" }
+    -- API coverage: the arrow conversions of the helper fail with it
+    for key in ["field_arrow", "field_arrow_owned"] do
+      if let some o := getOpt j key then
+        if implCls o != "err" then
+          return { agree := true, spec := [("C20", "fail"), c16 (implCls o)], tags := tags, sig := s!"C20/{key}/{helper}/impl={implCls o}/expect=err",
+                   why := s!"arrow Field::try_from(helper) gives {o.compress} although Field::try_from(&helper) fails" }
     return { agree := true, spec := [("C20", "pass"), ("C16", "pass")], tags := tags }
   | .ok mf =>
     let f ← getObj implField "ok"
@@ -327,6 +333,13 @@ def handle (j : Json) : Except String Verdict := do
     | .error _ =>
       return { agree := false, spec := [("C20", "pass"), ("C16", "pass")], tags := tags, sig := s!"C20/ser/{helper}/does-not-read-back",
                why := s!"serialized form is not accepted by the schema reader: {back.compress}" }
+    -- API coverage: the arrow field of the helper (borrowed and owned conversion) is this field
+    for key in ["field_arrow", "field_arrow_owned"] do
+      if let some o := getOpt j key then
+        if (o.getObjVal? "ok").toOption != some f then
+          return { agree := true, spec := [("C20", "fail"), c16 (implCls o)], tags := tags, sig := s!"C20/{key}/{helper}/{implCls o}",
+                   why := s!"arrow Field::try_from(helper), read back as a marrow field, is {o.compress}; Field::try_from(&helper) is {f.compress}" }
+        tags := tags ++ [s!"{key}-ok"]
     return { agree := true, spec := [("C20", "pass"), ("C16", "pass")], tags := tags }
 
 end Driver.Suites.Ext
